@@ -24,6 +24,6 @@ def run(ctx, replay):
                     cfg_text=vlib.cfg_text("ESpec", dict(C, Deviations={"mintToReported"}), INVS))
         if d["ok"] or "Invariant InvMintToSubmitter is violated" not in d["text"]:
             raise vlib.ToolFailure("vacuity control failed: deviation mintToReported not caught by InvMintToSubmitter")
-    subsys.run(ctx, "C15", replay, "EthTracker", MC, ["eth", "eth5", "erc20"], TRACE, corrupt,
-               "seeded histories with four witnesses (threshold 3): duplicate lock/redeem submissions of a pool of six external transactions (built and signed offline with go-ethereum against the LockRedeem ABI), finality reports yes/no by witnesses and outsiders, with wrong and out-of-range vote indexes, repeated votes, and reports that lie about the beneficiary; one evaluation = one block re-computed by TLC (guards, vote slots, threshold crossing, mint to the tracker's owner, refund, supply counter) and compared with the projected tracker records and all wrapped balances",
+    subsys.run(ctx, "C15", replay, "EthTracker", MC, ["eth", "eth5", "erc20", "ethstory"], TRACE, corrupt,
+               "seeded histories with four witnesses (threshold 3): duplicate lock/redeem submissions of a pool of six external transactions (built and signed offline with go-ethereum against the LockRedeem ABI), finality reports yes/no by witnesses and outsiders, with wrong and out-of-range vote indexes, repeated votes, and reports that lie about the beneficiary; family ethstory is guided: every external transaction is submitted and decided (finality or failure) by all witnesses reporting in one block, or threshold-many in one block and the rest later, or one per block, with late and repeated reports in the block of the deciding report and after it, and the same external transaction submitted again, on the genesis documents with four witnesses, with the ERC20 token, and with five witnesses in turn; one evaluation = one block re-computed by TLC (guards, vote slots, threshold crossing, mint to the tracker's owner, refund, supply counter) and compared with the projected tracker records and all wrapped balances",
                extra_mc=[MC3])
